@@ -421,7 +421,7 @@ func (sc *c15Scenario) exec(obs *c15Obs) {
 					obs.PriorErr = fmt.Sprint(r)
 				}
 			}()
-			if _, err := env.Sign(&prior); err != nil {
+			if _, err := env.Sign(prior.WithContext(WithCaller(context.Background(), tsaCaller))); err != nil {
 				obs.PriorErr = err.Error()
 			}
 		}()
@@ -697,6 +697,16 @@ func runC15(t *Tape, st *Stats, tier string) *RunResult {
 	}
 	st.SimTimeMs += obs.TReturn.Sub(Epoch).Milliseconds()
 	w := sc.Rev.Worlds[0]
+	if sc.PriorSign {
+		if obs.PriorErr == "" {
+			st.Probes["c15_object_signed_before"]++
+			if sc.Scheme != 0 || sc.NoTimestamp {
+				st.Probes["c15_object_signed_before_then_untimestamped_sign"]++
+			}
+		} else {
+			st.Probes["c15_prior_sign_failed"]++
+		}
+	}
 	st.Behav["tsa_"+tsaBehaviourNames[sc.Behaviour]]++
 	st.Behav["tsa_chain_"+tsaDefectNames[w.TSADefect]]++
 	st.Behav[fmt.Sprintf("rev_mode_%d", sc.RevMode)]++
